@@ -187,6 +187,17 @@ def build_driver(name, flavour="plain", extra_src=(), cflags=(), ldflags=()):
     return exe, px
 
 
+def clean_tail(path):
+    """Remove a trailing partial line (a driver killed in mid-write) so that the file stays parseable NDJSON."""
+    try:
+        data = open(path, "rb").read()
+    except OSError:
+        return
+    if data and not data.endswith(b"\n"):
+        cut = data.rfind(b"\n")
+        open(path, "wb").write(data[:cut + 1] if cut >= 0 else b"")
+
+
 def run_driver(cmd, trace, env=None, timeout=900, cwd=None):
     """Run a conformance driver.  A driver that does not end normally (non-zero exit, killed by a signal, sanitizer
        report, timeout) leaves a truncated trace; so that the abnormal end is judged by TLC (and not silently
@@ -206,6 +217,7 @@ def run_driver(cmd, trace, env=None, timeout=900, cwd=None):
     except subprocess.TimeoutExpired as ex:
         rc, out = -999, "timeout after %ds\n%s" % (timeout, (ex.stdout or b"")[-2000:] if isinstance(ex.stdout, bytes) else "")
     if rc != 0:
+        clean_tail(trace)
         tail = ""
         try:
             with open(trace, "rb") as f:
